@@ -447,7 +447,7 @@ func runS(c caseS) error {
 	}
 	model := asCreated()
 	recreated := false
-	_ = recreated
+	plain := false // created anew without object lock
 	for i, o := range c.Ops {
 		vals := settingVals[o.Setting]
 		val := vals[o.Val%len(vals)]
@@ -491,11 +491,20 @@ func runS(c caseS) error {
 				}
 				return fmt.Errorf("%s: DeleteBucket of the empty bucket answers %v", where, r)
 			}
+			if o.Val%3 == 0 {
+				// ... this time without object lock: a plain bucket
+				if r := cl.MustCall("PUT", "/"+b, nil, nil, nil); !r.OK() {
+					return fmt.Errorf("%s: CreateBucket after DeleteBucket answers %v", where, r)
+				}
+				model = map[string]string{"ownership": "BucketOwnerEnforced"}
+				recreated, plain = true, true
+				continue
+			}
 			if r := cl.MustCall("PUT", "/"+b, nil, []s3c.KV{{K: "x-amz-bucket-object-lock-enabled", V: "true"}}, nil); !r.OK() {
 				return fmt.Errorf("%s: CreateBucket after DeleteBucket answers %v", where, r)
 			}
 			model = asCreated()
-			recreated = true
+			recreated, plain = true, false
 		case "put":
 			var r *s3c.Resp
 			switch o.Setting {
@@ -571,10 +580,19 @@ func runS(c caseS) error {
 					return fmt.Errorf("%s: ownership controls read back as %q (%d), last written %s", where, r.Body, r.Status, want)
 				}
 			case "versioning":
+				if !has {
+					if r.OK() && strings.Contains(string(r.Body), "<Status>") {
+						return fmt.Errorf("%s: the bucket was created anew and its versioning never set but GetBucketVersioning answers %q", where, r.Body)
+					}
+					continue
+				}
 				if !r.OK() || !strings.Contains(string(r.Body), "<Status>"+want+"</Status>") {
 					return fmt.Errorf("%s: versioning reads back as %q (%d), last written %s", where, r.Body, r.Status, want)
 				}
 			case "lock":
+				if !has && plain && r.OK() {
+					return fmt.Errorf("%s: the bucket was created anew without object lock but GetObjectLockConfiguration answers %q", where, r.Body)
+				}
 				if !has {
 					if recreated && r.OK() && strings.Contains(string(r.Body), "<DefaultRetention>") {
 						return fmt.Errorf("%s: the bucket was created anew without a default retention but GetObjectLockConfiguration answers %q", where, r.Body)
